@@ -33,6 +33,21 @@ impl Record {
         r.value@ == value@ && r.header.cas == cas && r.header.flags == flags && r.header.time_to_live == expiration && r.header.timestamp == 0, // @ob C04 conc.record.new.fields
 //@endfn
 }
+// Record == Record is what /repo's `impl PartialEq for Record` says (at the time of writing: the VALUE bytes only - flags,
+// CAS and expiry do not take part).  The impl is extracted and checked against this spec; the obligation carries the
+// pseudo-property ALL: if it fails, every contract that mentions `==` on records has lost its meaning and every
+// property of the unit is undecided (never a violation by itself).
+impl vstd::std_specs::cmp::PartialEqSpecImpl for Record {
+    open spec fn obeys_eq_spec() -> bool { true }
+    open spec fn eq_spec(&self, other: &Record) -> bool { self.value@ == other.value@ }
+}
+impl PartialEq for Record {
+//@fn cache/cache.rs | impl PartialEq for Record | eq | ret=r | safety=ALL
+    ensures
+        r == (self.value@ == other.value@), // @ob ALL record.eq.value_bytes_only
+//@endfn
+}
+
 //@include model.rs
 //@include prelude_conc.rs
 //@include prelude_num.rs
